@@ -8,7 +8,7 @@ from fractions import Fraction as F
 import numpy as np
 
 from rv.core import ctx as _ctx
-from rv.core import instrument, scribble
+from rv.core import calling, instrument, scribble
 from rv.core.tolerances import RANGE_STEP_TOL
 
 ANCHORS = ("arrays/dimensions.py", "arrays/operations.py")
@@ -199,6 +199,14 @@ def judge_range(ctx, start, stop, step, size, via):
             return D.create_time_range(start, stop, step=step)
         elif via == "time_sr":
             return D.create_time_range(start, stop, samplerate=round(1 / step))
+        elif via == "time_both":
+            # both given: the documentation says the step takes precedence
+            both = D.create_time_range(start, stop, step=step, samplerate=[2.0, 0.5, 3.0][int(start * 4) % 3] / step)   # a rate that disagrees with the step by a small factor
+            ref = D.create_time_range(start, stop, step=step)
+            ctx.mon("range.step_and_samplerate")
+            if len(both) != len(ref) or not np.array_equal(np.asarray(both.data), np.asarray(ref.data)) or both.attrs.get("step") != ref.attrs.get("step"):
+                ctx.violate("range:step_precedence", "range:step_precedence", observed={"n": len(both), "step": both.attrs.get("step")}, expected={"n": len(ref), "step": ref.attrs.get("step")}, spec=spec)
+            return both
         return D.create_frequency_range(start, stop, step)
 
     try:
@@ -226,6 +234,9 @@ def judge_index(ctx, coords, value, raise_error, attr_step=None):
     spec = {"kind": "index", "coords": _cspec(coords), "value": value, "raise_error": raise_error}
     inside = coords[0] <= value <= coords[-1]
     ctx.mon("get_coord_index.exceptions")
+    if ctx.every(spec, 4):
+        calling.agree(ctx, "get_coord_index", instrument.original(D.get_coord_index), dict(arr=arr, dim="x", value=value, raise_error=raise_error), spec,
+                      variants={"boolish_flag": {"raise_error": calling.boolish(ctx.rng, raise_error)}, "numlike_value": {"value": calling.numlike(ctx.rng, value)}})
     try:
         D.get_coord_index(arr, "x", value, raise_error=raise_error)
     except KeyError as e:
@@ -310,7 +321,7 @@ def run(ctx):
                     if k % ctx.nshards != ctx.shard:
                         continue
                     stop = start + (n + frac) * step
-                    via = rng.choice(["range", "range", "time", "freq"])
+                    via = rng.choice(["range", "range", "time", "freq", "time_both"])
                     if via == "time" and abs(1 / step - round(1 / step)) < 1e-9 and rng.random() < 0.5:
                         via = "time_sr"
                     ctx.case(("range", via, "whole" if frac == 0 else "partial", "n0" if n == 0 else "n1" if n == 1 else "n>1"),
